@@ -68,7 +68,8 @@ def trees(max_leaves):
             st.builds(lambda a, b: ["-", a, b], ch, ch),
             st.builds(lambda a, b: ["*", a, b], ch, ch),
             st.builds(lambda a, b: ["/", a, b], ch, ch),
-            st.builds(lambda a, e: ["**", a, e], ch, st.sampled_from([["int", 2], ["int", 3], ["int", -1], ["int", -2], ["rat", 1, 2], ["rat", -1, 2], ["flt", 0.5], ["flt", -0.5], ["rat", 1, 3]])),
+            st.builds(lambda a, e: ["**", a, e], ch, st.sampled_from([["int", 2], ["int", 3], ["int", -1], ["int", -2], ["rat", 1, 2], ["rat", -1, 2], ["flt", 0.5], ["flt", -0.5], ["rat", 1, 3],
+                                                                     ["neg", ["I"]], ["*", ["int", -2], ["I"]], ["I"], ["-", ["int", -1], ["I"]], ["flt", -1.5], ["int", -3]])),
             st.builds(lambda a, n: ["**", a, ["sym", n]], ch, st.sampled_from(NAMES)),
             st.builds(lambda a: ["sqrt", a], ch),
             st.builds(lambda a: ["/", ["int", 1], a], ch),
@@ -208,8 +209,9 @@ def o_unsupported(spec):
 @st.composite
 def name_cases(draw, tier):
     stem = st.sampled_from(["beta", "theta", "x", "a", "g_", "b", ""])
-    num = st.one_of(st.sampled_from([0, 1, 2, 9, 10, 11, 100, 20, 3]), st.integers(0, 5000))
-    tail = st.sampled_from(["", "_1", "_12", "b3", "_007", "-3", "-w", ".5"])
+    num = st.one_of(st.sampled_from([0, 1, 2, 9, 10, 11, 100, 20, 3]), st.integers(0, 5000), st.sampled_from([2 ** 53, 2 ** 53 + 1, 10 ** 17 + 1, 10 ** 17]))
+    tail = st.one_of(st.sampled_from(["", "_1", "_12", "b3", "_007", "-3", "-w", ".5"]),
+                     st.builds(lambda sep, k: sep + str(k), st.sampled_from([".", "_", ".", "x"]), st.sampled_from([2, 9, 10, 11, 100, 5])))
     seps = st.sampled_from(["_", "", "_", "", "-", ".", "__", "+", " "])  # a symbol name is any string
     mk = st.builds(lambda s, sep, n, t: s + sep + str(n) + t, stem, seps, num, tail)
     names = draw(st.lists(mk, min_size=1, max_size=5, unique=True))
